@@ -266,8 +266,12 @@ def spelling_invariance_obligations(contract, repo_ip):
     hyp = [n >= 0] + [numeq(x, y) for x, y in zip(raw1, raw2)] + spelling_lemmas(h, list(zip(raw1, raw2)) + [(VNone, VNone)])
     if model is None:
         return []
+    if contract.facts is not None:
+        hyp += [f for _, f in contract.facts(None)]
     v1, vals1, rest1 = model_validity(model, h, n, raw1)
     v2, vals2, rest2 = model_validity(model, h, n, raw2)
+    if getattr(contract, 'fact_instances', None) is not None:
+        hyp += contract.fact_instances(vals1) + contract.fact_instances(vals2)
     if rest1 is not None:
         return [(f'{contract.script_name}.spec-spelling.validity', hyp, v1 == v2)]
 
